@@ -607,6 +607,15 @@ impl FormatSpec {
         self.validate_format(FormatType::String)?;
         match self.format_type {
             Some(FormatType::String) | None => {
+                if self.sign.is_some() {
+                    return Err(FormatSpecError::NotAllowed("Sign"));
+                }
+                if self.alternate_form {
+                    return Err(FormatSpecError::NotAllowed("Alternate form (#)"));
+                }
+                if self.align == Some(FormatAlign::AfterSign) {
+                    return Err(FormatSpecError::NotAllowed("'=' alignment"));
+                }
                 // the precision truncates the value (by characters) before it is padded
                 let text: &str = s.deref();
                 let truncated = match self.precision {
